@@ -1,5 +1,49 @@
 """skgenome interval arithmetic -> Gen/IvDefaults.v (property C06): the default
-arguments and in-body literals the interval models depend on."""
+arguments and in-body literals the interval models depend on, and (Gen/IvCombiners.v) the
+table of default column combiners of skgenome/combiners.py: get_combiners' `cmb` dictionary
+(column name -> name of the combining function), the rule for the strand column, the
+string merge_strands returns for mixed strands, and the literals the genome-level model
+reads off merge()/flatten() (sort columns, groupby key, kind of the final chromosome sort)."""
+import ast
+
+
+def _combiner_table(T, C):
+    """get_combiners: cmb = {"col": <function name>, ...} as [(col, function name)], plus the
+    strand rule `cmb["strand"] = A if stranded else B` as (A, B)."""
+    f = T.find_func(C, 'get_combiners')
+    table = None
+    strand = None
+    for n in ast.walk(f):
+        if isinstance(n, ast.Assign) and len(n.targets) == 1:
+            t = n.targets[0]
+            if isinstance(t, ast.Name) and t.id == 'cmb' and isinstance(n.value, ast.Dict):
+                if table is not None:
+                    raise T.Refuse('%s: get_combiners assigns cmb twice' % C)
+                table = []
+                for k, v in zip(n.value.keys, n.value.values):
+                    if not (isinstance(k, ast.Constant) and isinstance(k.value, str) and isinstance(v, ast.Name)):
+                        raise T.Refuse('%s: get_combiners: cmb entry is not "name": function' % C)
+                    table.append((k.value, v.id))
+            if (isinstance(t, ast.Subscript) and isinstance(t.value, ast.Name) and t.value.id == 'cmb'
+                    and isinstance(t.slice, ast.Constant)):
+                v = n.value
+                if not (t.slice.value == 'strand' and isinstance(v, ast.IfExp) and isinstance(v.test, ast.Name)
+                        and v.test.id == 'stranded' and isinstance(v.body, ast.Name) and isinstance(v.orelse, ast.Name)):
+                    raise T.Refuse('%s: get_combiners: unexpected assignment %s' % (C, ast.unparse(n)))
+                strand = (v.body.id, v.orelse.id)
+    if table is None or strand is None:
+        raise T.Refuse('%s: get_combiners: cmb table / strand rule not found' % C)
+    return table, strand
+
+
+def _mixed_strand(T, C):
+    """merge_strands: the string literal returned for more than one distinct strand"""
+    f = T.find_func(C, 'merge_strands')
+    lits = [n.value.value for n in ast.walk(f)
+            if isinstance(n, ast.Return) and isinstance(n.value, ast.Constant) and isinstance(n.value.value, str)]
+    if len(lits) != 1:
+        raise T.Refuse('%s: merge_strands: expected exactly one string literal result, found %r' % (C, lits))
+    return lits[0]
 
 
 def specs(T):
@@ -7,9 +51,39 @@ def specs(T):
     G = 'skgenome/gary.py'
     S = 'skgenome/subdivide.py'
     C = 'skgenome/combiners.py'
+    U = 'skgenome/subtract.py'
     limits = T.local(G, 'GenomicArray.resize_ranges', 'limits')
     if not isinstance(limits, dict) or list(limits) != ['lower']:
         raise T.Refuse('%s: resize_ranges: limits is no longer {"lower": <n>}: %r' % (G, limits))
+    table, strand = _combiner_table(T, C)
+    # structural anchors of the genome-level model (fail-closed)
+    T.body_contains(C, 'get_combiners', 'if combine:')
+    T.body_contains(C, 'get_combiners', "if 'strand' not in cmb:")
+    T.body_contains(C, 'get_combiners', 'return {k: v for k, v in cmb.items() if k in table.columns}')
+    T.body_contains(C, 'merge_strands', 'strands = set(elems)')
+    T.body_contains(C, 'merge_strands', 'if len(strands) > 1:')
+    T.body_contains(C, 'merge_strands', 'return elems[0]')
+    T.body_contains(C, 'join_strings', 'return sep.join(pd.unique(pd.Series(elems)))')
+    T.body_contains(C, 'last_of', 'elems.iloc[-1]')
+    T.body_contains(C, 'first_of', 'elems.iloc[0]')
+    T.body_contains(M, 'merge', 'if (gap_sizes > -bp).all():')
+    T.body_contains(M, 'merge', "groupkey = ['chromosome']")
+    T.body_contains(M, 'merge', "table = table.sort_values(groupkey + ['start', 'end'])")
+    T.body_contains(M, 'merge', "table.groupby(by=groupkey, as_index=False, group_keys=False, sort=False)")
+    T.body_contains(M, 'merge', "out.chromosome.apply(sorter_chrom).sort_values(kind='mergesort').index")
+    T.body_contains(M, 'flatten', 'if (table.start.values[1:] >= table.end.cummax().values[:-1]).all():')
+    T.body_contains(M, 'flatten', "table = table.sort_values(['chromosome', 'start', 'end'])")
+    T.body_contains(M, 'flatten', "table.groupby(by='chromosome', as_index=False, group_keys=False, sort=False)")
+    T.body_contains(M, 'flatten', "out.chromosome.apply(sorter_chrom).sort_values(kind='mergesort').index")
+    T.body_contains(M, '_squash_tuples', 'if len(rows) == 1:')
+    T.body_contains(M, '_flatten_tuples', 'if len(rows) == 1:')
+    T.body_contains(M, '_flatten_tuples', 'extra_cols = [x for x in first_row._fields[3:] if x in combine]')
+    T.body_contains(M, '_flatten_tuples', 'row for row in rows if row.start <= bp_start and row.end >= bp_end')
+    T.body_contains(U, 'subtract', 'if not len(other):')
+    T.body_contains(U, '_subtraction', "by_ranges(other, table, 'outer', True)")
+    T.body_contains(G, 'GenomicArray.resize_ranges', 'if chrom_sizes:')
+    T.body_contains(G, 'GenomicArray.resize_ranges', "limits['upper'] = self.chromosome.map(chrom_sizes)")
+    T.body_contains(G, 'GenomicArray.total_range_size', 'if not len(self):')
     return {'IvDefaults': [
         # merge(table, bp=0, ...): the default used by GenomicArray.merge() and by subdivide's merge(regions)
         ('merge_bp_default', 'Z', T.default(M, 'merge', 'bp')),
@@ -26,4 +100,17 @@ def specs(T):
         ('ga_subdivide_min_default', 'Z', T.default(G, 'GenomicArray.subdivide', 'min_size')),
         # join_strings(elems, sep=",")
         ('join_sep', 'string', T.default(C, 'join_strings', 'sep')),
+    ], 'IvCombiners': [
+        # get_combiners: cmb = {...}
+        ('combiner_table', 'list (string * string)', [list(x) for x in table]),
+        # cmb["strand"] = first_of if stranded else merge_strands
+        ('strand_combiner_stranded', 'string', strand[0]),
+        ('strand_combiner_unstranded', 'string', strand[1]),
+        # merge_strands: the result for mixed strands
+        ('mixed_strand', 'string', _mixed_strand(T, C)),
+        # merge(table, bp=0, stranded=False, ...)
+        ('merge_stranded_default', 'bool', T.default(M, 'merge', 'stranded')),
+        ('ga_merge_stranded_default', 'bool', T.default(G, 'GenomicArray.merge', 'stranded')),
+        # flatten: get_combiners(table, False, combine)
+        ('flatten_stranded', 'bool', T.call_arg(M, 'flatten', 'get_combiners', 1)),
     ]}
